@@ -25,8 +25,8 @@ var props = []propCfg{
 	{
 		ID: "C18", World: "sched", Pkg: "worlds/sched", Test: "TestSched", Level: "exploration", Instr: true,
 		Variants: []variant{
-			{Name: "plain", Quick: 2500, Thorough: 60000, Workers: 10, CPU: 1, QuickS: 1500, ThoroughS: 4 * 3600},
-			{Name: "race", Race: true, Quick: 500, Thorough: 12000, Workers: 6, CPU: 1, QuickS: 1500, ThoroughS: 4 * 3600},
+			{Name: "plain", Quick: 2500, Thorough: 25000, Workers: 10, CPU: 1, QuickS: 1500, ThoroughS: 4 * 3600},
+			{Name: "race", Race: true, Quick: 500, Thorough: 5000, Workers: 6, CPU: 1, QuickS: 1500, ThoroughS: 4 * 3600},
 		},
 		Rule: "one run = one shared object (factory primitive over a 1..3-key keyset of a drawn class and key types from the catalog, a legacy-adapter MAC over a stub key manager, or a handle with its read operations, primitive construction, registry lookups and key generation), " +
 			"2..4 tasks (6 thorough) of 1..3 operations each on inputs that are overlapping sub-slices of one shared read-only arena, and one drawn plan of baton passes placed at yield points inserted before every statement of tink's sources. " +
